@@ -645,12 +645,30 @@ def replay(ctx, path):
     lines = [l for l in body.split("\n") if l.strip()]
     exp = [l[len("#expect "):] for l in txt.split("\n") if l.startswith("#expect ")]
     cexe, mexe, _ = build(ctx)
-    case = dict(lines=lines, tok=lines, expect=exp, feats=["replay"], fmt="?", bpp=0, W=0, H=0, tokens=True)
+    global FIXMASK
+    FIXMASK = probe_fixes(cexe, mexe)
+    case = dict(lines=lines, tok=with_fixed([l for l in lines if not l.startswith("fixed ")], FIXMASK), expect=exp,
+                feats=["replay"], fmt="?", bpp=0, W=0, H=0, tokens=True)
+    num2name = {0: "raw", 1: "copyrect", 2: "rre", 4: "corre", 5: "hextile", 6: "zlib", 7: "tight", 9: "ultra", 15: "trle", 16: "zrle"}
+    for l in lines:
+        p = l.split()
+        if p and p[0] == "init" and len(p) > 13:
+            fmt = tuple(int(v) for v in p[3:12])
+            case.update(W=int(p[1]), H=int(p[2]), bpp=fmt[0], sigmax=int(p[13]),
+                        fmt=next((n for n, f in FORMATS.items() if f == fmt), "?"))
+        elif p and p[0] == "b" and len(p) > 1 and len(p[1]) >= 24 and int(p[1][16:24], 16) in num2name:
+            case["feats"].append("corpus/" + num2name[int(p[1][16:24], 16)])
+        elif p and p[0] == "live" and len(p) > 6:
+            case.update(bpp=8 * int(p[3]), sigmax=31 if p[3] == "2" else 255)
+            case["feats"].append("live/" + p[6])
     m, o, (co, ce, mo, me) = evaluate(ctx, [case], cexe, mexe)
     print("implementation:\n" + co[:5000] + "model:\n" + mo[:5000])
     ctx.coverage.update(evaluations=1, distinct_nontrivial=0, rule="replay", samples=[lines[:4]])
+    if any(l.startswith("live") for l in lines):
+        o = [(0, e) for (_, e, _) in run_live(ctx, cexe, [case])]
+        m = []
     if o:
-        ctx.violation("client does not reconstruct the encoded content: " + o[0][1], {"what": o[0][1][:60]},
+        ctx.violation("client does not reconstruct the encoded content: " + o[0][1], features_of(case, o[0][1]),
                       "script:\n" + "\n".join(lines) + "\n\n#expect " + "\n#expect ".join(exp) + "\n\nimplementation output:\n" + co[:20000])
     elif m:
         ctx.violation("correspondence differs on the replayed script", {"kind": "correspondence"},
